@@ -108,7 +108,19 @@ class FsScenario(Scenario):
         if unpaced:
             case["unpaced"] = True
         self.tweak(case, rng, cfg)
+        nrng = random.Random(f"{seed}:nested")
+        if self.nested_share and nrng.random() < self.nested_share and not (set(case["faults"]) & {"vanish", "add_fail"}) and ["rmroot"] not in case["ops"]:
+            # a second watch on the same observer, on a directory below the root (its own inotify instance / snapshot):
+            # what the first watch's handler sees must not depend on it, and its handler sees nothing outside its directory
+            mp = fm.Model()
+            for op in case["pre"]:
+                fm.apply(mp, op)
+            dirs = sorted(d for d in mp.dirs_in("root") if d != "root")
+            if dirs:
+                case["watch"]["nested"] = [nrng.choice(dirs), nrng.random() < 0.6]
         return case
+
+    nested_share = 0.15
 
     def tweak(self, case, rng, cfg):
         pass
@@ -182,6 +194,22 @@ class FsScenario(Scenario):
                 run.handlers.append(h1)
                 wp2 = _os.fsencode(str(wp) if not isinstance(wp, (str, bytes)) else wp) if tk == "bytes" else _os.fsdecode(str(wp) if not isinstance(wp, (str, bytes)) else wp)
                 obs.schedule(h1, wp2, recursive=run.recursive)
+            nd = case["watch"].get("nested")
+            if nd and nd[0] in run.model.t:
+                import os as _os
+
+                h2 = run.H(2)
+                run.handlers.append(h2)
+                base = wp if isinstance(wp, (str, bytes)) else str(wp)
+                rel = nd[0][len("root/"):]
+                obs.schedule(h2, _os.path.join(base, _os.fsencode(rel) if isinstance(base, bytes) else rel), recursive=nd[1])
+                res["nested"] = nd[0]
+            of = case["watch"].get("other_filter")
+            if of is not None and of != case["watch"].get("twin_filter"):
+                import watchdog.events as wev
+
+                h3 = run.H(3)
+                obs.schedule(h3, wp, recursive=run.recursive, event_filter=[getattr(wev, n) for n in of])
             tf = case["watch"].get("twin_filter")
             if tf is not None:
                 import watchdog.events as wev
@@ -297,6 +325,11 @@ def generic_violations(prop, sim, verdict, res, run=None):
         if u["kind"] != "actor":
             fn = u["where"][-1][2] if u["where"] else "?"
             v.append(Violation("uncaught", f"{prop}:uncaught:{u['task'].split('#')[0]}:{u['exc']}:{fn}", str(u)))
+    if res.get("nested") and run is not None:
+        nd = res["nested"]
+        foreign = [e["shape"] for e in run.events if e["h"] == 2 and not all(p == "" or p == nd or fm.is_under(p, nd) for p in (e["shape"][2], e["shape"][3]))]
+        if foreign:
+            v.append(Violation("foreign-event", f"{prop}:nested-watch-received-foreign-path", f"watch on {nd} delivered {foreign[:4]}"))
     return v
 
 
@@ -313,7 +346,7 @@ class C01(FsScenario):
     level_note = "sampling, not proof; real kernel trusted as deterministic serialised component; histories limited to 3 names x depth 3, <=12 (rarely 40) operations"
 
     def judge(self, run, res, sim, verdict):
-        v = generic_violations("C01", sim, verdict, res)
+        v = generic_violations("C01", sim, verdict, res, run)
         if res.get("done") and res.get("replay"):
             d = res["replay"]
             paths = sorted(set(d["phantom"]) | set(d["missing"]))
@@ -333,7 +366,7 @@ class C02(FsScenario):
     nonrec_share = 0.25
 
     def judge(self, run, res, sim, verdict):
-        v = generic_violations("C02", sim, verdict, res)
+        v = generic_violations("C02", sim, verdict, res, run)
         pr = res.get("probes")
         if pr:
             if pr["missing"]:
@@ -369,7 +402,7 @@ class C03(FsScenario):
             case["ops"].append(["rmroot"])
 
     def judge(self, run, res, sim, verdict):
-        v = generic_violations("C03", sim, verdict, res)
+        v = generic_violations("C03", sim, verdict, res, run)
         if not res.get("done"):
             return v
         bad = run.oracle_sound()
@@ -491,7 +524,7 @@ class C07(FsScenario):
         shutil.rmtree(run.real("root"))
 
     def judge(self, run, res, sim, verdict):
-        v = generic_violations("C07", sim, verdict, res)
+        v = generic_violations("C07", sim, verdict, res, run)
         if res.get("early"):
             if res["alive_lib"]:
                 v.append(Violation("thread-alive", "C07:threads-alive-after-stop-join:" + ",".join(sorted({n.split('#')[0] for n in res["alive_lib"]})), f"{res['alive_lib']}"))
@@ -532,6 +565,7 @@ C14_SHAPES = [
 
 
 class C14(FsScenario):
+    nested_share = 0  # twin / colliding-name configurations keep a single extra variable
     prop = "C14"
     design_ref = "DESIGN.md 4/C14"
     rule = ("FS-world with colliding name universes: root given as the relative path 'root' (str or bytes, chdir into the scratch top) or absolute, entry names from {root, a, b} to depth 4 so "
@@ -635,12 +669,14 @@ class C19(FsScenario):
         return w
 
     def judge(self, run, res, sim, verdict):
-        v = generic_violations("C19", sim, verdict, res)
+        v = generic_violations("C19", sim, verdict, res, run)
         if run.type_errors:
             v.append(Violation("path-type", f"C19:wrong-path-type:{run.type_errors[0][1]}:{run.w['root_kind']}:{run.w.get('backend', 'inotify')}", f"{run.type_errors[:3]} with root {run.w}"))
         ever = set(res.get("ever_paths", ()))
         bad = []
         for e in run.events:
+            if e["h"] == 2:
+                continue  # a nested watch keeps reporting under the path it was scheduled with, also after that directory was renamed
             for p in (e["shape"][2], e["shape"][3]):
                 if p and (p.startswith("?") or (ever and p not in ever)):
                     bad.append((e["shape"], p))
@@ -663,6 +699,7 @@ def _collapse(seq):
 
 
 class C11(FsScenario):
+    nested_share = 0  # twin / colliding-name configurations keep a single extra variable
     prop = "C11"
     design_ref = "DESIGN.md 4/C11"
     rule = ("FS-world with twin watches on one observer: (root, flags, filter=None) and (root, flags, filter=F); F cycles with the run index through every concrete event class, both base "
@@ -688,6 +725,10 @@ class C11(FsScenario):
     def gen_case(self, seed, tier, idx):
         case = super().gen_case(seed, tier, idx)
         case["watch"]["twin_filter"] = self.filter_for(idx, random.Random(f"{seed}:filter"))
+        orng = random.Random(f"{seed}:other-filter")
+        if orng.random() < 0.35:
+            # a bystander: a third watch on the same directory with another filter (filters are per watch, not per observer)
+            case["watch"]["other_filter"] = self.filter_for(orng.randrange(10_000), orng)
         return case
 
     def judge(self, run, res, sim, verdict):
@@ -708,6 +749,13 @@ class C11(FsScenario):
             if e["h"] == 1 and e["phase"] == "ops" and not passes(e):
                 v.append(Violation("filter", "C11:filtered-watch-delivered-non-member", f"{e['shape']} is not an instance of {F}"))
                 break
+        F2 = run.w.get("other_filter")
+        if F2 is not None:
+            classes2 = tuple(getattr(wev, n) for n in F2)
+            for e in run.events:
+                if e["h"] == 3 and not isinstance(e["ev"], classes2):
+                    v.append(Violation("filter", "C11:filtered-watch-delivered-non-member:bystander", f"{e['shape']} is not an instance of {F2} (the other filtered watch has {F})"))
+                    break
         bad = run.oracle_sound(handler=1)
         if bad:
             v.append(Violation("filter", "C11:filtered-event-unjustified", f"{[b['shape'] for b in bad[:3]]} with filter {F}; ops={run.case['ops']}"))
